@@ -35,13 +35,23 @@ class Model:
         self.cwd = root
         self.root = root
         self.nassign = 0
+        self.loopvars = {}
+        self.cursor = {}
+
+    @staticmethod
+    def cparams(cp, argv0, args):
+        """what a condition line written with the positional parameters passes to its program"""
+        if not cp:
+            return []
+        a = list(args)
+        return [a[0] if len(a) > 0 else "", a[1] if len(a) > 1 else "", argv0, " ".join(a)]
 
     def run_stmts(self, stmts, argv0, args, top=False):
         for st in stmts:
             self.run(st, argv0, args)
             # set -e: a failing command ends the script; a failing *condition* does not (a failure
             # inside the if body has already raised from the nested run)
-            if self.sete and self.status != 0 and st[0] not in ("sete", "ifblock"):
+            if self.sete and self.status != 0 and st[0] not in ("sete", "ifblock", "ifchain", "forblock", "whileblock"):
                 raise Exit(self.status)
 
     def run(self, st, argv0, args):
@@ -107,6 +117,38 @@ class Model:
             self.status = st[1]          # $? = most recently executed pipeline (the condition)
             if st[1] == 0:
                 self.run_stmts(st[3], argv0, args)
+        elif k == "ifchain":
+            ran = False
+            for code, tag, body, cp in st[1]:
+                self.events.append(("vp_status", [str(code), tag] + self.cparams(cp, argv0, args)))
+                self.status = code
+                if code == 0:
+                    self.run_stmts(body, argv0, args)
+                    ran = True
+                    break
+            if not ran and st[2] is not None:
+                self.run_stmts(st[2], argv0, args)
+        elif k == "forblock":
+            for w in st[2]:
+                if isinstance(w, list) or isinstance(w, tuple):       # ("arg", n): the n-th positional parameter, unquoted
+                    w = args[w[1] - 1]
+                self.loopvars[st[1]] = w
+                self.run_stmts(st[3], argv0, args)
+        elif k == "fprobe":
+            a = list(args)
+            self.events.append(("vp_argv", [st[1], self.loopvars.get(st[2], ""), a[0] if a else ""]))
+            self.status = 0
+        elif k == "whileblock":
+            while True:
+                # the helper's cursor goes on where the previous execution of this loop left it (an exhausted sequence answers 1)
+                i = self.cursor.get(st[1], 0)
+                self.cursor[st[1]] = i + 1
+                code = st[2][i] if i < len(st[2]) else 1
+                self.events.append(("vp_cond", [st[1]] + self.cparams(st[4], argv0, args)))
+                self.status = code
+                if code != 0:
+                    break
+                self.run_stmts(st[3], argv0, args)
         else:
             raise ValueError(k)
 
@@ -159,7 +201,28 @@ def render(stmts, indent=""):
             out.append(indent + "if vp_status %d %s" % (st[1], st[2]))
             out += render(st[3], indent + "    ")
             out.append(indent + "fi")
+        elif k == "ifchain":
+            for i, (code, tag, body, cp) in enumerate(st[1]):
+                out.append(indent + ("if" if i == 0 else "else if") + " vp_status %d %s%s" % (code, tag, CPARAMS if cp else ""))
+                out += render(body, indent + "    ")
+            if st[2] is not None:
+                out.append(indent + "else")
+                out += render(st[2], indent + "    ")
+            out.append(indent + "fi")
+        elif k == "forblock":
+            out.append(indent + "for %s in %s" % (st[1], " ".join(w if isinstance(w, str) else "$%d" % w[1] for w in st[2])))
+            out += render(st[3], indent + "    ")
+            out.append(indent + "done")
+        elif k == "fprobe":
+            out.append(indent + 'vp_argv %s "$%s" "$1"' % (st[1], st[2]))
+        elif k == "whileblock":
+            out.append(indent + "while vp_cond %s%s" % (st[1], CPARAMS if st[4] else ""))
+            out += render(st[3], indent + "    ")
+            out.append(indent + "done")
     return out
+
+
+CPARAMS = ' "$1" "${2}" "$0" "$@"'
 
 
 class G:
@@ -185,6 +248,27 @@ class G:
             return ("status", self.rng.choice([0, 0, 1, 2, 7]), self.tag("M"))
         return ("sprobe", self.tag("S"))
 
+    def block(self, depth, where, plain_args=0):
+        """a block whose condition lines / word list / body use the positional parameters of the place it stands in"""
+        def body():
+            b = [self.simple() for _ in range(self.rng.randint(1, 3))]
+            if depth < 1 and self.rng.random() < 0.25:
+                b.insert(self.rng.randint(0, len(b)), self.block(depth + 1, where, plain_args))
+                b.append(("status", 0, self.tag("M")))
+            return b
+        r = self.rng.random()
+        if r < 0.45:
+            arms = [(self.rng.choice([0, 1, 1, 2]), self.tag("I"), body(), self.rng.random() < 0.7) for _ in range(self.rng.randint(1, 3))]
+            return ("ifchain", arms, body() if self.rng.random() < 0.5 else None)
+        if r < 0.75:
+            var = self.rng.choice(["v", "it", "x_1"])
+            words = [self.rng.choice(["w1", "w2", "k.txt", "9"]) for _ in range(self.rng.randint(1, 3))]
+            if plain_args and self.rng.random() < 0.6:
+                words.insert(self.rng.randint(0, len(words)), ("arg", self.rng.randint(1, plain_args)))
+            return ("forblock", var, words, [("fprobe", self.tag("F"), var)] + body())
+        seq = [0] * self.rng.randint(0, 3) + [self.rng.choice([1, 1, 2])]
+        return ("whileblock", self.tag("K"), seq, body(), self.rng.random() < 0.7)
+
     def func(self):
         if self.funcnames and self.rng.random() < 0.3:
             # a name that is defined already gets a new body (in the same file or through a sourced one):
@@ -194,6 +278,9 @@ class G:
             name = self.rng.choice(["f", "my_fn", "do-it", "_g", "fn2", "a-b_c"]) + str(len(self.funcnames))
             self.funcnames.append(name)
         body = [self.simple() for _ in range(self.rng.randint(1, 4))]
+        if self.rng.random() < 0.3:
+            body.insert(self.rng.randint(0, len(body)), self.block(0, "func"))
+            body.append(("status", self.rng.choice([0, 0, 3]), self.tag("M")))
         return ("deffunc", name, self.rng.random() < 0.5, body)
 
     def srcfile(self, depth, special):
@@ -212,12 +299,15 @@ class G:
                 body.append(("cd", self.rng.choice(["d1", "d2"])))
             elif r < 0.85 and depth < 3:
                 body.append(("source", self.srcfile(depth + 1, special), self.args(special)))
+            elif r < 0.93:
+                body.append(self.block(0, "source"))
+                body.append(("status", self.rng.choice([0, 0, 3]), self.tag("M")))
             else:
                 body.append(self.simple())
         self.files[name] = body
         return name
 
-    def top(self, special):
+    def top(self, special, plain_args=0):
         stmts = []
         for _ in range(self.rng.randint(0, 3)):
             stmts.append(self.func())
@@ -249,6 +339,9 @@ class G:
                 stmts.append(("status", self.rng.choice([0, 0, 3]), self.tag("M")))
             else:
                 stmts.append(self.simple())
+            if self.rng.random() < 0.12:
+                stmts.append(self.block(0, "top", plain_args))
+                stmts.append(("status", self.rng.choice([0, 0, 3]), self.tag("M")))
         return stmts
 
 
@@ -269,6 +362,24 @@ def features(stmts, files):
                 f.add(st[0] + "-in-" + where)
                 if st[0] == "ifblock":
                     walk(st[3], where)
+            elif st[0] == "ifchain":
+                f.add("ifchain-in-" + where)
+                if any(a[3] for a in st[1]):
+                    f.add("condition-with-parameters-in-" + where)
+                for a in st[1]:
+                    walk(a[2], where)
+                if st[2] is not None:
+                    walk(st[2], where)
+            elif st[0] == "forblock":
+                f.add("for-in-" + where)
+                if any(not isinstance(w, str) for w in st[2]):
+                    f.add("for-over-parameters-in-" + where)
+                walk(st[3], where)
+            elif st[0] == "whileblock":
+                f.add("while-in-" + where)
+                if st[4]:
+                    f.add("condition-with-parameters-in-" + where)
+                walk(st[3], where)
             elif st[0] in ("probe", "sprobe") and where != "top":
                 f.add(st[0] + "-in-" + where)
     walk(stmts, "top")
@@ -287,6 +398,26 @@ def judge(case):
         for d in ("", "d1", "d2"):       # reachable after a cd as well
             with open(os.path.join(root, d, name), "w") as f:
                 f.write("\n".join(render(body)) + "\n")
+    for n in os.listdir(sb.vpdir):
+        if n.startswith(("cur.", "cond.")):
+            os.unlink(os.path.join(sb.vpdir, n))
+
+    def conds(ss):
+        for st in ss:
+            if st[0] == "whileblock":
+                with open(os.path.join(sb.vpdir, "cond." + st[1]), "w") as f:
+                    f.write(" ".join(str(c) for c in st[2]) + "\n")
+                conds(st[3])
+            elif st[0] == "ifchain":
+                for a in st[1]:
+                    conds(a[2])
+                if st[2] is not None:
+                    conds(st[2])
+            elif st[0] in ("deffunc", "forblock", "ifblock"):
+                conds(st[3])
+    conds(stmts)
+    for body in files.values():
+        conds(body)
     script = os.path.join(root, "main.sh")
     text = "\n".join(render(stmts)) + "\n"
     with open(script, "w") as f:
@@ -328,7 +459,9 @@ def judge(case):
             t = ev[1][0] if ev[1] else ""
             if ev[0] == "vp_status":
                 return "marker"
-            return {"P": "args-probe", "S": "status-probe", "W": "variable-probe", "C": "cwd-probe"}.get(t[:1], "other")
+            if ev[0] == "vp_cond":
+                return "while-condition"
+            return {"P": "args-probe", "S": "status-probe", "W": "variable-probe", "C": "cwd-probe", "F": "for-probe"}.get(t[:1], "other")
         what = kind(we)
         detail = ""
         if what == kind(he) and what == "args-probe" and we[1][0] == he[1][0]:
@@ -347,8 +480,8 @@ def judge(case):
 def gen_case(rng):
     g = G(rng)
     special = rng.random() < 0.4
-    stmts = g.top(special)
     args = [rng.choice(ARGS_POOL if special else ["a1", "b2", "c3", "d4", "e5"]) for _ in range(rng.randint(0, 5))]
+    stmts = g.top(special, 0 if special else len(args))
     return {"stmts": stmts, "files": g.files, "args": args, "special_args": special}
 
 
